@@ -118,6 +118,49 @@ func checkC11(c *Ctx) (string, []string) {
 			}
 		}
 	}
+	c.Rule("C11.count-agreement", "for every type, each loop that moves wire data has the same trip-count source in Encode and Decode: either the count is carried by a natural written/read immediately for that field (length-prefixed), or it is the same protocol parameter on both sides (Encode checks len == parameter, Decode loops to the parameter)", 40)
+	if os.Getenv("JAMVERIF_DUMP") != "" {
+		for _, n := range names {
+			if dec[n] == nil {
+				continue
+			}
+			fmt.Printf("COUNTS %s enc=%v dec=%v\n", n, csE.loopCounts(enc[n], false), csD.loopCounts(dec[n], true))
+		}
+	}
+	for _, n := range names {
+		fe, fd := enc[n], dec[n]
+		if fd == nil {
+			continue
+		}
+		ce, cd := csE.loopCounts(fe, false), csD.loopCounts(fd, true)
+		if len(ce) == 0 && len(cd) == 0 {
+			continue
+		}
+		key := typesPkg + "." + n
+		fields := map[string]bool{}
+		for k := range ce {
+			fields[k] = true
+		}
+		for k := range cd {
+			fields[k] = true
+		}
+		for fld := range fields {
+			k2 := key + " · loop over ." + fld
+			a, b := ce[fld], cd[fld]
+			switch {
+			case a == b && a != "" && !strings.Contains(a, "?"):
+				c.OK("C11.count-agreement", k2, fd.Pos(), "both sides: %s", a)
+			case a == "len-unchecked" && strings.HasPrefix(b, "fixed:"):
+				c.OK("C11.count-agreement", k2, fd.Pos(), "Decode reads %s elements; Encode writes len(x) elements without checking it (round trip holds for values that respect the fixed-length invariant)", b)
+				c.Note("%s.Encode does not check its fixed length (%s) before writing", n, b)
+			case strings.Contains(a, "?") || strings.Contains(b, "?") || a == "" || b == "":
+				c.Unknown("C11.count-agreement", k2, fd.Pos(), "trip-count source not recognised (Encode %q, Decode %q)", a, b)
+			default:
+				c.Bad("C11.count-agreement", k2, fd.Pos(), "Encode's loop count is %s but Decode's is %s: the two sides move a different number of elements", a, b)
+			}
+		}
+	}
+
 	c.Rule("C11.map-order", "every range over a map in internal/types (Encode methods and codec helpers) has an order-independent body or its product is sorted by a total order before any other use", 6)
 	ms := &moScope{c: c, rule: "C11.map-order", reviewed: map[string]string{}}
 	nloops := ms.checkMapOrder([]string{typesPkg}, func(f string) bool { return !strings.Contains(f, "json") })
